@@ -3,6 +3,7 @@
   Property theorems only (model: `Pongo/Model/Exec.lean`).
 -/
 import Pongo.Lemmas.Eval
+import Pongo.Gen.LexTables
 
 namespace Pongo.C09
 
@@ -155,6 +156,15 @@ example : loopRecord (Int64.ofNat (1 + 1)) (Int64.ofNat 1) (Int64.ofNat (3 - 1))
     = .ptr (.struct b!"forloop" [(b!"Counter", .int 2), (b!"Counter0", .int 1), (b!"Revcounter", .int 2),
         (b!"Revcounter0", .int 1), (b!"First", .bool false), (b!"Last", .bool false), (b!"Parentloop", .nilptr)] []) := by
   rfl
+
+/-- **what counts as a name** (regenerated from lexer.go): a name starts with an ASCII letter or
+    `_` and goes on with letters, digits and `_`; exactly eight words are reserved (`in and or not
+    true false as export`) — every other word, `none`, `_`, `_x`, `end`, … is an ordinary name that
+    a loop variable, a macro parameter or a context key can bear -/
+theorem gen_name_tables :
+    Gen.lexTables.identChars = b!"abcdefghijklmnopqrstuvwxyzABCDEFGHIJKLMNOPQRSTUVWXYZ_" ∧
+    Gen.lexTables.identDigitChars = b!"abcdefghijklmnopqrstuvwxyzABCDEFGHIJKLMNOPQRSTUVWXYZ_0123456789" ∧
+    Gen.lexTables.keywords = [b!"in", b!"and", b!"or", b!"not", b!"true", b!"false", b!"as", b!"export"] := by decide
 
 /-! ### branching -/
 
